@@ -231,6 +231,40 @@ pub fn main(args: &Args) -> std::io::Result<()> {
                 }
             }
         }
+        // round joins and round caps: "the covered set is exactly the set of points within half the width of the path, up
+        // to the tolerance" - every point at distance half-width minus the margin from a vertex with a round join / cap
+        // is within half the width of the path and must be covered (96 directions per such vertex; the 12-gons above
+        // leave the arcs of the discs unchecked)
+        if !bad {
+            let mut centres: Vec<P> = Vec::new();
+            if cfg.join == LineJoin::Round {
+                let range = if closed { 0..np } else { 1..np.saturating_sub(1) };
+                for i in range {
+                    centres.push(p64[i]);
+                }
+            }
+            if !closed {
+                if cfg.start_cap == LineCap::Round {
+                    centres.push(p64[0]);
+                }
+                if cfg.end_cap == LineCap::Round {
+                    centres.push(p64[np - 1]);
+                }
+            }
+            'discs: for c in &centres {
+                for k in 0..96 {
+                    let a = (k as f64 + 0.5) * std::f64::consts::PI / 48.0;
+                    let q = (c.0 + (hw - margin) * a.cos(), c.1 + (hw - margin) * a.sin());
+                    st.inc("round_arc_points");
+                    let (cl, _) = crate::c01::cover_f64(q, &pos, &tris);
+                    if cl == 0 {
+                        st.fail(jobj(&[("what", jstr("round join / cap: a point closer to the path than half the width minus the tolerance is not covered")), ("input", jstr(&format!("point {:?} at distance {:.5} from the vertex {:?} (half width {}, tolerance {}) :: {}", q, hw - margin, c, hw, tol, label)))]));
+                        bad = true;
+                        break 'discs;
+                    }
+                }
+            }
+        }
         // triangle vertices within reach (all of them, not sampled)
         for v in &rec.verts {
             let q = (v.pos.x as f64, v.pos.y as f64);
